@@ -1984,13 +1984,176 @@ def r03_14(ctx, counts) -> RuleResult:
     return res
 
 
+def r03_15(ctx, counts) -> RuleResult:
+    """function conversion rules: untypedAtomic -> expected type through the lexical constructor"""
+    model: Model = ctx.model
+    res = RuleResult(
+        'R03.15', 'UNTYPED-ARGUMENT-LEXICAL-CAST',
+        'The function conversion rules cast an xs:untypedAtomic argument to the expected atomic '
+        'type. Most datatype classes take the text as their single constructor argument, but the '
+        'date/time and duration classes take FIELDS (Duration(months, seconds), '
+        'DateTime(year, month, …)) and offer a `fromstring` class method for text. '
+        '`cls(value)` with an UntypedAtomic then builds a Duration whose `months` IS the untyped '
+        'value (years-from-duration(@x) raised a bare TypeError) or fails with a TypeError that '
+        'is read as XPTY0004. In XPathToken.validated_value the branch for UntypedAtomic values '
+        'calls the class directly only where `fromstring` has been tried or excluded '
+        '(a hasattr/getattr test on \'fromstring\' in the same branch). The classes concerned '
+        'are listed from the class hierarchy on every run.')
+    tok = model.find_class('XPathToken')
+    f = tok.methods.get('validated_value')
+    if f is None:
+        raise AnalysisError('XPathToken.validated_value vanished')
+    cls_param = f.params()[2] if len(f.params()) > 2 else 'cls'
+    base = model.find_class('AnyAtomicType')
+    field_built = sorted(c.name for c in model.subclasses_of(base)
+                         if any(g.cls is c and g.name == 'fromstring'
+                                for g in c.module.functions.values()))
+    res.instances.append(f'datatype classes with a fromstring() constructor: {field_built[:8]}')
+    if len(field_built) < 2:
+        raise AnalysisError('no datatype class with a fromstring constructor located')
+    res.ok()
+    n = 0
+    for br in [x for x in walk_local(f.node) if isinstance(x, ast.If)
+               and 'isinstance(' in stmt_text(x.test) and 'UntypedAtomic' in stmt_text(x.test)]:
+        calls = [c for st in br.body for c in ast.walk(st) if isinstance(c, ast.Call)
+                 and isinstance(c.func, ast.Name) and c.func.id == cls_param]
+        for c in calls:
+            n += 1
+            tried = any(isinstance(k, ast.Constant) and k.value == 'fromstring'
+                        or isinstance(k, ast.Attribute) and k.attr == 'fromstring'
+                        for st in br.body for k in ast.walk(st))
+            res.instances.append(f'{f.key}: `{stmt_text(c)}` for an untyped value; fromstring '
+                                 f'considered={tried}')
+            if tried:
+                res.ok()
+            else:
+                res.fail(finding('R03.15', f, c, 'cls(untyped) for field-built classes',
+                                 f'`{stmt_text(c)}` converts an untyped argument by calling the '
+                                 f'expected class with the value: for {field_built[:3]}… the '
+                                 f'constructor takes fields, so years-from-duration(@x) computes '
+                                 f'on a Duration whose months is the UntypedAtomic (bare '
+                                 f'TypeError) and year-from-date(@d) answers XPTY0004'))
+    counts['untyped_argument_casts'] = n
+    if n < 1:
+        raise AnalysisError(f'{f.key}: the conversion of untyped arguments was not located')
+    return res
+
+
+def r03_16(ctx, counts) -> RuleResult:
+    """an argument that may be the empty sequence is not used as a number"""
+    from ..engine.dataflow import branch_facts
+    model: Model = ctx.model
+    res = RuleResult(
+        'R03.16', 'EMPTY-ARGUMENT-USED-AS-NUMBER',
+        '`self.get_argument(context, …)` returns None for an empty sequence unless it is called '
+        'with required=True (XPTY0004), a default, or default_to_context. In the evaluate/select '
+        'functions of the function layers a name bound to such a call is passed to a numeric '
+        'primitive — math.*(x), float(x), int(x), abs(x), round(x), len(x) or an arithmetic '
+        'operator — only where it is established not to be None (branch facts `x is not None`, '
+        '`isinstance(x, …)`, truthiness; an `isinstance(x, T) and …` conjunct counts). Otherwise '
+        'subsequence((1,2), ()) and math:atan2((), 1) raise a bare TypeError ("must be real '
+        'number, not NoneType").')
+    n = 0
+    prims = ('math.', )
+    for f in sorted(model.all_functions(), key=lambda q: q.key):
+        if not f.module.name.startswith(('elementpath.xpath1._', 'elementpath.xpath2._',
+                                         'elementpath.xpath30._', 'elementpath.xpath31._')):
+            continue
+        maybe: dict[str, ast.AST] = {}
+        for st in walk_local(f.node):
+            if isinstance(st, (ast.Assign, ast.AnnAssign)) and isinstance(st.value, ast.Call) \
+                    and dotted(st.value.func).endswith('get_argument'):
+                kws = {k.arg for k in st.value.keywords}
+                if kws & {'required', 'default', 'default_to_context'}:
+                    continue
+                tg = st.targets[0] if isinstance(st, ast.Assign) else st.target
+                if isinstance(tg, ast.Name):
+                    maybe[tg.id] = st
+        if not maybe:
+            continue
+        cfg = CFG(f.node)
+        facts = branch_facts(cfg)
+        reported: set[str] = set()
+        for nd in cfg.nodes:
+            if nd.ast is None or nd.kind not in ('stmt', 'test'):
+                continue
+            root = nd.ast.test if isinstance(nd.ast, (ast.If, ast.While)) else nd.ast
+            for x in ast.walk(root):
+                use = None
+                if isinstance(x, ast.Call) and x.args and (
+                        dotted(x.func).startswith(prims) or
+                        dotted(x.func) in ('float', 'int', 'abs', 'round', 'len')):
+                    cands = x.args if dotted(x.func).startswith(prims) else x.args[:1]
+                    for a in cands:
+                        if isinstance(a, ast.Name) and a.id in maybe and a.id not in reported:
+                            use = a.id
+                if isinstance(x, ast.BinOp) and isinstance(
+                        x.op, (ast.Add, ast.Sub, ast.Mult, ast.Div, ast.Mod, ast.FloorDiv)) \
+                        and not isinstance(x.left, ast.Constant):
+                    for side in (x.left, x.right):
+                        if isinstance(side, ast.Name) and side.id in maybe:
+                            use = side.id
+                if use is None or getattr(x, 'lineno', 0) < maybe[use].lineno or use in reported:
+                    continue
+                # another definition of the name between the call and the use (`if x is None:
+                # x = …`, normalisation): the value used is not the raw argument
+                redefined = any(
+                    isinstance(st, (ast.Assign, ast.AnnAssign, ast.AugAssign))
+                    and st is not maybe[use]
+                    and maybe[use].lineno < st.lineno <= getattr(x, 'lineno', 0)
+                    and any(isinstance(t, ast.Name) and t.id == use for t in ast.walk(
+                        st.targets[0] if isinstance(st, ast.Assign) else st.target))
+                    for st in walk_local(f.node))
+                if redefined:
+                    continue
+                n += 1
+                fs = facts[nd.id]
+                ok = any(fa in (f'-{use} is None', f'+{use}', f'-not {use}')
+                         or fa.startswith(f'+isinstance({use},') for fa in fs)
+                if not ok:      # `isinstance(x, T) and prim(x)` / `x is not None and …`
+                    for bo in [b for b in ast.walk(root) if isinstance(b, ast.BoolOp)
+                               and isinstance(b.op, ast.And)]:
+                        for i, v in enumerate(bo.values):
+                            if any(y is x for y in ast.walk(v)):
+                                for prev in bo.values[:i]:
+                                    t = stmt_text(prev)
+                                    if t.startswith(f'isinstance({use},') or t == f'{use} is not None' \
+                                            or t == use:
+                                        ok = True
+                if not ok:      # `x is None or prim(x)`
+                    for bo in [b for b in ast.walk(root) if isinstance(b, ast.BoolOp)
+                               and isinstance(b.op, ast.Or)]:
+                        for i, v in enumerate(bo.values):
+                            if any(y is x for y in ast.walk(v)):
+                                for prev in bo.values[:i]:
+                                    if stmt_text(prev) in (f'{use} is None', f'not {use}'):
+                                        ok = True
+                if ok:
+                    res.ok()
+                else:
+                    reported.add(use)
+                    res.instances.append(f'{f.key}: `{stmt_text(x)[:40]}` on `{use}`, which may be '
+                                         f'None')
+                    res.fail(finding('R03.16', f, x, f'{use} may be None',
+                                     f'`{stmt_text(x)[:50]}` uses `{use}`, bound to '
+                                     f'`{stmt_text(maybe[use])[:60]}` (None for an empty sequence), '
+                                     f'as a number without a None test: an empty-sequence '
+                                     f'argument raises a bare TypeError'))
+    res.instances.append(f'{n} numeric uses of possibly-empty arguments examined')
+    counts['maybe_none_numeric_uses'] = n
+    if n < 5:
+        raise AnalysisError(f'only {n} numeric uses of get_argument results located')
+    return res
+
+
 def run(ctx) -> dict:
     counts: dict[str, int] = {}
     results = [r03_1(ctx, counts), r03_2(ctx, counts), r03_3(ctx, counts), r03_4(ctx, counts),
                r03_5(ctx, counts), r03_6(ctx, counts), r03_7(ctx, counts),
                r03_8(ctx, counts), r03_9(ctx, counts), r03_10(ctx, counts),
                r03_11(ctx, counts), r03_12(ctx, counts), r03_13(ctx, counts),
-               r03_14(ctx, counts)]
+               r03_14(ctx, counts), r03_15(ctx, counts),
+               r03_16(ctx, counts)]
     # "no call hangs": the lock discipline of C19 is a necessary condition (a lock left held on
     # an error path blocks every later evaluation that needs it)
     from . import c19_global
